@@ -50,6 +50,10 @@ def run(ctx):
     ctx.rule(rule_iterator_contract, 'C14.R6')
     ctx.rule(rule_stat_caller, 'C14.R5')
     ctx.rule(rule_bin_cover, 'C14.R4')
+    # the phase bins and the alignment grid are define_hist_bins(0, 2pi, n): edges exactly linspace(min, max, n + 1),
+    # centres their midpoints
+    from . import c10
+    ctx.rule(c10.rule_bins, 'C14.R7')
     l1.rule_lib_attrs(ctx, 'L1', ['emd.cycles.phase_align', 'emd.cycles.bin_by_phase', 'emd.cycles.get_cycle_stat'],
                       'cycle statistics')
 
